@@ -111,11 +111,12 @@ def unescKey : Bytes → Bytes
     else x :: unescKey (y :: rest)
   | l => l
 
-/-- Decimal digits of a natural number (ASCII). -/
-def natDigits (n : Nat) : Bytes :=
-  if h : n < 10 then [UInt8.ofNat (48 + n)] else natDigits (n / 10) ++ [UInt8.ofNat (48 + n % 10)]
-termination_by n
-decreasing_by omega
+/-- Decimal digits of a natural number (ASCII); `fuel` only makes the recursion structural. -/
+def natDigitsAux : Nat → Nat → Bytes
+  | 0, _ => []
+  | fuel + 1, n => if n < 10 then [UInt8.ofNat (48 + n)] else natDigitsAux fuel (n / 10) ++ [UInt8.ofNat (48 + n % 10)]
+
+def natDigits (n : Nat) : Bytes := natDigitsAux (n + 1) n
 
 /-- `strconv.FormatInt(v, 10)`. -/
 def intDigits (v : Int) : Bytes := if v < 0 then 45 :: natDigits v.natAbs else natDigits v.natAbs
@@ -434,6 +435,9 @@ deriving DecidableEq, Repr, Inhabited
 
 def lastTime (ps : List BPoint) : Int := match ps.getLast? with | some p => p.time | none => 0
 
+/-- `points[0].Time()` (0 stands for the absent first point of an empty batch, which never gets here). -/
+def Batch.firstTime (b : Batch) : Int := match b.points with | p :: _ => p.time | [] => 0
+
 /-- `replayBatchFromChan` on non-empty batches (the only ones `readBatchFromIO` lets through).
 `shiftTmax = true` is the code since the `fix:` commit (tmax shifted like the points), `false` the snapshot. -/
 def replayBatchesGo (shiftTmax : Bool) (zero : Int) (recTime : Bool) : Option Int → List Batch → List BOut
@@ -441,7 +445,7 @@ def replayBatchesGo (shiftTmax : Bool) (zero : Int) (recTime : Bool) : Option In
   | diff?, b :: rest =>
     let diff := match diff? with
       | some d => d
-      | none => zero - (match b.points with | p :: _ => p.time | [] => 0)
+      | none => zero - b.firstTime
     let pts := if recTime then b.points else b.points.map (fun p => { p with time := p.time + diff })
     let lastT := if recTime then lastTime b.points + diff else lastTime pts
     let tmax0 := if !recTime ∧ shiftTmax then b.tmax + diff else b.tmax
